@@ -68,9 +68,14 @@ class MakeWriteArgs(Bounded):
     alphabet = "a '$#-@"
 
     def cases(self):
-        return ['recipe', 'assignment', 'recipe-path', 'assignment-path']
+        return ['recipe', 'assignment', 'recipe-path', 'assignment-path', 'target-assignment-path']
 
     def native_inputs(self, case, alphabet, maxlen, rng, extra=0):
+        if case == 'target-assignment-path':
+            for n in arg_strings("a %|#:$ '", 2):
+                if n and not n.startswith('/') and not n.endswith(' ') and not n.startswith('~'):
+                    yield {'target': n, 'args': ['-Dx']}
+            return
         words = arg_strings(alphabet, 2)
         if case.endswith('path'):
             names = [w for w in words if w and not w.startswith('/') and '\\' not in w and w not in ('.', '..') and
@@ -105,6 +110,25 @@ class MakeWriteArgs(Bounded):
         mk = msyn.Makefile('build.bfg')
         buf = io.StringIO()
         w = mk.writer(buf)
+        if case == 'target-assignment-path':
+            # `target: X := value`: make must read the word before the colon as exactly that target (a `%` left
+            # unescaped makes the line a pattern-specific assignment that leaks into other targets)
+            try:
+                p = Path(raw['target'], Root.builddir)
+            except ValueError:
+                return None
+            if p.root != Root.builddir or not p.suffix:
+                return None
+            mk._write_variable(w, msyn.Variable('X'), args, target=p)
+            text = buf.getvalue()
+            tail = ": X := -Dx\n"
+            if not text.endswith(tail):
+                return self.fail(case, raw, 'target_specific_assignment_shape', text=text)
+            st, out = MK.mk_target.pyrun_codes((MK.N, 0, 1, 1, 0), text[:-len(tail)])
+            got = ''.join(chr(c) for c in out) + '\\' * st[1]
+            if not (st[0] == MK.N and st[2] == 1 and st[4] == 0) or got != p.suffix:
+                return self.fail(case, raw, 'make_reads_the_assignment_target_back', text=text, read=got, expected=p.suffix)
+            return True
         try:
             if case.startswith('recipe'):
                 w.write_shell(args)
